@@ -455,6 +455,62 @@ fn sync_pass(ctx: &Ctx) {
     ctx.require(harnesses == 0 || schedules > harnesses, "sync_schedules explored a single schedule per harness (vacuous)");
 }
 
+/// "A pure function of its arguments": the same argument VALUES through shared references or through separate copies
+/// (one prepared element used for two pairs vs two bit-identical clones; one scalar array referenced twice vs two copies)
+/// must give bit-identical results - an operation must not look at the identity (address) of what it is given.
+fn aliasing(ctx: &Ctx) {
+    let sub = "aliasing";
+    let names = ["miller_loop: one G2Prepared for two pairs vs two clones", "miller_loop: one G1Prepared for two pairs vs two clones", "sum_of_products: one scalar array referenced twice vs two copies", "Wnaf: shared table used twice vs two tables"];
+    ctx.sweep(
+        sub,
+        names.len() as u64,
+        |i| json!({"case": names[i as usize]}),
+        |i| {
+            let mut p2 = g1();
+            p2.mul_assign(k(41));
+            let mut q2 = g2();
+            q2.mul_assign(k(42));
+            let (pa, pb) = (G1Affine::one().prepare(), p2.into_affine().prepare());
+            let (qa, qb) = (q2.into_affine().prepare(), G2Affine::one().prepare());
+            let (x, y): (Vec<u8>, Vec<u8>) = match i {
+                0 => {
+                    let qc = qa.clone();
+                    (raw_fq12(&Bls12::miller_loop([(&pa, &qa), (&pb, &qa)].iter())), raw_fq12(&Bls12::miller_loop([(&pa, &qa), (&pb, &qc)].iter())))
+                }
+                1 => {
+                    let pc = pa.clone();
+                    (raw_fq12(&Bls12::miller_loop([(&pa, &qa), (&pa, &qb)].iter())), raw_fq12(&Bls12::miller_loop([(&pa, &qa), (&pc, &qb)].iter())))
+                }
+                2 => {
+                    let pts = [g1().into_affine(), p2.into_affine()];
+                    let (s1, s2) = (k(43).0, k(43).0);
+                    (raw_g1(&G1Affine::sum_of_products(&pts, &[&s1, &s1])), raw_g1(&G1Affine::sum_of_products(&pts, &[&s1, &s2])))
+                }
+                _ => {
+                    let mut w1 = Wnaf::new();
+                    let mut w2 = Wnaf::new();
+                    let mut t1 = w1.base(p2, 2);
+                    let a: G1 = t1.scalar(k(44));
+                    let b: G1 = t1.scalar(k(45));
+                    let mut t2 = w2.base(p2, 2);
+                    let c: G1 = t2.scalar(k(45));
+                    let mut u = raw_g1(&a);
+                    u.extend(raw_g1(&b));
+                    let mut w3 = Wnaf::new();
+                    let a2: G1 = w3.base(p2, 2).scalar(k(44));
+                    let mut v = raw_g1(&a2);
+                    v.extend(raw_g1(&c));
+                    (u, v)
+                }
+            };
+            if x != y {
+                return Err(Fail::new(format!("the result depends on whether equal arguments are the same object: {}", names[i as usize])));
+            }
+            Ok("aliasing")
+        },
+    );
+}
+
 pub fn hex_of(b: &[u8]) -> String {
     b.iter().map(|x| format!("{:02x}", x)).collect()
 }
@@ -585,6 +641,7 @@ pub fn run(ctx: &Ctx) -> (&'static str, &'static str) {
         free_running(ctx, &base);
         miri_pass(ctx);
         sync_pass(ctx);
+        aliasing(ctx);
     } else {
         ctx.machinery("could not compute fresh-process baselines");
     }
